@@ -4,7 +4,7 @@
 //! the real slice path (`to_allocvec`, `take_from_bytes`) on the same value / the same bytes.
 
 use crate::arena::{self, Place};
-use crate::dev::{self, RKind, RLog, RStep, SimReader, SimWriter, WLog, WStep};
+use crate::dev::{self, DevCfg, RKind, RLog, RStep, SimReader, SimWriter, WLog, WStep};
 use crate::rng::{Fnv, Rng};
 use crate::runner::{Outcome, Scenario, Tier};
 use crate::shape::{self, Borrow, DynOwned, DynRef, GenCfg, Msg, Val};
@@ -52,6 +52,9 @@ pub struct C11Trace {
     /// additionally: hard error at every accepted/delivered offset, EOF at every offset,
     /// every scratch size 0..=R+1 (complete per trace)
     pub enumerate: bool,
+    /// longer runs of retryable answers, other error kinds, a device that keeps failing
+    #[serde(default)]
+    pub dev: DevCfg,
 }
 
 type PcResult<T> = Result<T, postcard::Error>;
@@ -145,7 +148,11 @@ mod f {
     pub const R_INTR: usize = 7;
     pub const R_SHORT: usize = 8;
     pub const SCRATCH_SHORT: usize = 9;
-    pub const NAMES: [&str; 10] = [
+    pub const W_INTR_RUN3: usize = 10;
+    pub const R_INTR_RUN3: usize = 11;
+    pub const HARD_OTHER_KIND: usize = 12;
+    pub const REFUSED_AFTER_FAULT: usize = 13;
+    pub const NAMES: [&str; 14] = [
         "writer_hard_error_fired",
         "writer_answers_ok_0_forever",
         "writer_flush_failed",
@@ -156,6 +163,10 @@ mod f {
         "reader_interrupted",
         "reader_short_read",
         "scratch_smaller_than_required",
+        "writer_interrupted_3_to_20_times_in_a_row",
+        "reader_interrupted_3_to_20_times_in_a_row",
+        "hard_error_of_another_kind_fired_wouldblock_timedout_eof_other_denied",
+        "hard_error_on_a_device_that_fails_every_later_call_too",
     ];
 }
 
@@ -217,11 +228,12 @@ struct WCfg<'a> {
     buffering: bool,
     flush_err: bool,
     fault: Option<usize>,
+    dev: DevCfg,
 }
 
 /// Writes all messages through one simulated writer. Ok(wire) or the failed clause.
 fn write_chain(c: &WCfg, out: &mut Outcome<C11Trace>) -> Result<Vec<u8>, Fail> {
-    let (w, log) = SimWriter::new(c.script.to_vec(), c.fault, c.buffering, c.flush_err);
+    let (w, log) = SimWriter::new(c.script.to_vec(), c.fault, c.buffering, c.flush_err, c.dev);
     out.extra[X_WRITE_CHAINS] += 1;
     let mut writer = Some(w);
     let mut expect: Vec<u8> = Vec::new();
@@ -275,7 +287,10 @@ fn write_chain(c: &WCfg, out: &mut Outcome<C11Trace>) -> Result<Vec<u8>, Fail> {
                     ),
                 });
             }
-            if fired_now {
+            // (an error of kind WouldBlock is the one failure a caller may reasonably answer by
+            // trying again: with it, success is accepted too and judged like a fault-free write)
+            let may_retry = c.adapter == Adapter::Std && c.dev.hard_kind == dev::KIND_WOULD_BLOCK && !l.zero_fired && !l.flush_fired;
+            if fired_now && !(may_retry && r.is_ok()) {
                 if r.is_ok() {
                     return Err(Fail {
                         clause: "writer-error-reported",
@@ -328,6 +343,15 @@ fn write_chain(c: &WCfg, out: &mut Outcome<C11Trace>) -> Result<Vec<u8>, Fail> {
     out.bytes += l.accepted.len() as u64;
     if l.hard_fired {
         out.fault(f::W_HARD);
+        if c.adapter == Adapter::Std && c.dev.hard_kind != 0 {
+            out.fault(f::HARD_OTHER_KIND);
+        }
+    }
+    if l.hard_fired && c.dev.persist {
+        out.fault(f::REFUSED_AFTER_FAULT);
+    }
+    if l.max_intr_run >= 3 {
+        out.fault(f::W_INTR_RUN3);
     }
     if l.zero_fired {
         out.fault(f::W_ZERO);
@@ -401,6 +425,7 @@ struct RCfg<'a> {
     refs: &'a [RefMsg],
     script: &'a [RStep],
     fault: Option<(usize, RKind)>,
+    dev: DevCfg,
     /// scratch consumed per message in the measuring run; None while measuring
     need: Option<&'a [usize]>,
     /// per message: Some(n) when the scratch a decode needs is known independently of the
@@ -427,16 +452,27 @@ struct ReadReport {
 
 /// Reads the messages one after the other from one simulated reader with the given scratch.
 fn read_chain(c: &RCfg, scratch: &mut [u8], out: &mut Outcome<C11Trace>) -> Result<ReadReport, Fail> {
-    let (r, log) = SimReader::new(c.stream.clone(), c.script.to_vec(), c.fault);
+    let (r, log) = SimReader::new(c.stream.clone(), c.script.to_vec(), c.fault, c.dev);
     out.extra[X_READ_CHAINS] += 1;
     let res = read_chain_inner(c, scratch, out, r, &log);
     let l = log.borrow();
     out.extra[X_DEVICE_CALLS] += l.calls;
     out.bytes += l.pos as u64;
     match l.fired {
-        Some(RKind::HardError) => out.fault(f::R_HARD),
+        Some(RKind::HardError) => {
+            out.fault(f::R_HARD);
+            if c.adapter == Adapter::Std && c.dev.hard_kind != 0 {
+                out.fault(f::HARD_OTHER_KIND);
+            }
+        }
         Some(RKind::Eof) => out.fault(f::R_EOF),
         None => {}
+    }
+    if l.fired == Some(RKind::HardError) && c.dev.persist {
+        out.fault(f::REFUSED_AFTER_FAULT);
+    }
+    if l.max_intr_run >= 3 {
+        out.fault(f::R_INTR_RUN3);
     }
     if l.interrupted > 0 {
         out.fault(f::R_INTR);
@@ -539,7 +575,8 @@ fn read_chain_inner(
             if k == rf.start && i > 0 {
                 out.probe(p::FAULT_FIRST_BYTE_NEXT_MSG);
             }
-            if res.is_ok() {
+            let may_retry = c.adapter == Adapter::Std && kind == RKind::HardError && c.dev.hard_kind == dev::KIND_WOULD_BLOCK;
+            if res.is_ok() && !may_retry {
                 return Err(Fail {
                     clause: "reader-error-reported",
                     detail: format!(
@@ -548,7 +585,9 @@ fn read_chain_inner(
                     ),
                 });
             }
-            return Ok(report);
+            if res.is_err() {
+                return Ok(report);
+            }
         }
         match res {
             Ok(ok) => {
@@ -804,6 +843,7 @@ fn exec_c11(t: &C11Trace, out: &mut Outcome<C11Trace>) {
         buffering: t.buffering,
         flush_err: t.flush_err,
         fault: t.wfault,
+        dev: t.dev,
     };
     crate::supervisor::set_ctx([2, 0, 0, 0]);
     let wire = match write_chain(&wcfg, out) {
@@ -891,6 +931,7 @@ fn exec_c11(t: &C11Trace, out: &mut Outcome<C11Trace>) {
         refs: &refs,
         script: &calm,
         fault: None,
+        dev: DevCfg::default(),
         need: None,
         strict: &strict,
         avail_big: None,
@@ -904,6 +945,7 @@ fn exec_c11(t: &C11Trace, out: &mut Outcome<C11Trace>) {
         refs: &refs,
         script: &t.rscript,
         fault: None,
+        dev: t.dev,
         need: None,
         strict: &strict,
         avail_big: None,
@@ -1276,7 +1318,7 @@ impl Scenario for C11 {
         } else {
             None
         };
-        C11Trace {
+        let mut t = C11Trace {
             adapter,
             msgs,
             trailing,
@@ -1319,7 +1361,41 @@ impl Scenario for C11 {
             place: if rng.chance(2, 3) { Place::End } else { Place::Start },
             pipe: rng.chance(1, 2),
             enumerate,
+            dev: DevCfg::default(),
+        };
+        // device behaviour beyond the script: long runs of retryable answers (a retry budget
+        // that gives up must give up with an error), other error kinds, a device that keeps
+        // failing once it has failed
+        if std && !large && !long && rng.chance(1, 5) {
+            let cap = rng.range(3, 20);
+            t.dev.intr_cap = cap as u8;
+            let k = rng.range(3, cap);
+            if rng.chance(2, 3) {
+                if t.rscript.is_empty() {
+                    t.rscript.push(RStep::Deliver(rng.range(1, 300)));
+                }
+                let i = rng.usize_below(t.rscript.len() + 1);
+                for _ in 0..k {
+                    t.rscript.insert(i, RStep::Interrupted);
+                }
+            }
+            if rng.chance(2, 3) {
+                if t.wscript.is_empty() {
+                    t.wscript.push(WStep::Accept(rng.range(1, 300)));
+                }
+                let i = rng.usize_below(t.wscript.len() + 1);
+                for _ in 0..k {
+                    t.wscript.insert(i, WStep::Interrupted);
+                }
+            }
         }
+        if std && rng.chance(1, 3) {
+            t.dev.hard_kind = rng.below(dev::HARD_KINDS as u64) as u8;
+        }
+        if t.dev.hard_kind != dev::KIND_WOULD_BLOCK && rng.chance(1, 6) {
+            t.dev.persist = true;
+        }
+        t
     }
     fn exec(t: &C11Trace, out: &mut Outcome<C11Trace>) {
         exec_c11(t, out)
@@ -1412,6 +1488,18 @@ impl Scenario for C11 {
         }
         if t.borrowed {
             push(&mut v, &|c| c.borrowed = false);
+        }
+        if t.dev != DevCfg::default() {
+            push(&mut v, &|c| c.dev = DevCfg::default());
+            if t.dev.persist {
+                push(&mut v, &|c| c.dev.persist = false);
+            }
+            if t.dev.hard_kind != 0 {
+                push(&mut v, &|c| c.dev.hard_kind = 0);
+            }
+            if t.dev.intr_cap > 2 {
+                push(&mut v, &|c| c.dev.intr_cap -= 1);
+            }
         }
         if t.scratch != Scratch::Big {
             push(&mut v, &|c| c.scratch = Scratch::Big);
